@@ -67,6 +67,8 @@ def main():
         shutil.copy(patch, dest / 'patch.diff')
         if notes and Path(notes).exists():
             shutil.copy(notes, dest / 'notes.md')
+        if demo and Path(demo).exists():
+            shutil.copy(demo, dest / 'demo.py')
         (dest / 'meta.json').write_text(json.dumps(meta, indent=1))
     print(json.dumps(meta, indent=1))
     return 0 if meta.get('silent') else 1
